@@ -2083,7 +2083,7 @@ register("C07", run_C07, ["C07.C07_generate_total", "C07.C07_front_parse_halts",
 register("C08", run_C08, ["C08.C08_positions", "C08.C08_scan_total", "C08.C08_double_colon", "C08.C08_tokenize_eq_spec", "C08.C08_tokenize_total"])
 register("C09", run_C09, ["C09.C09_error_span", "C09.C09_kinds", "C09.C09_nonterminals", "C09.C09_rule_numbering", "C09.C09_reduce_arms", "C09.C09_table_valid", "C09.C09_parse_correct", "C09.C09_flatten", "C09.C09_parse_decides"])
 register("C10", run_C10, ["C10.C10_one_start_one_terminal", "C10.C10_ok_sound", "C10.C10_err_truthful", "C10.C10_truthful_not_wellFormed", "C10.C10_ok_iff_wellFormed", "C10.C10_no_panic"])
-register("C11", run_C11, ["C11.C11_attached_automaton", "C11.C11_setAction_conflict", "C11.C11_payload"])
+register("C11", run_C11, ["C11.C11_conflict_is_lalr1", "C11.C11_attached_automaton", "C11.C11_setAction_conflict", "C11.C11_payload"])
 register("C12", run_C12, ["C12.C12_emit", "C12.C12_token", "C12.C12_order"])
 register("C13", run_C13, ["C13.C13_use_sites", "C13.C13_type_order", "C13.C13_type_tokens", "C13.C13_field_sites", "C13.C13_getType_declared"])
 register("C14", run_C14, ["C14.C14_ofList_perm", "C14.C14_table_order_independent"])
